@@ -3435,6 +3435,10 @@ def commit_tree_changes(
         assert isinstance(sha_obj, Tree)
         tree_obj = sha_obj
     nested_changes: dict[bytes, list[tuple[bytes, int | None, ObjectID | None]]] = {}
+    # Entries of this tree itself that are added or replaced. They are applied
+    # after the nested changes, so that a file (or submodule) can take the
+    # place of a directory whose contents the same change list removes.
+    new_entries: list[tuple[bytes, int, ObjectID]] = []
     for path, new_mode, new_sha in changes:
         try:
             (dirname, subpath) = path.split(b"/", 1)
@@ -3443,7 +3447,7 @@ def commit_tree_changes(
                 del tree_obj[path]
             else:
                 assert new_mode is not None
-                tree_obj[path] = (new_mode, new_sha)
+                new_entries.append((path, new_mode, new_sha))
         else:
             nested_changes.setdefault(dirname, []).append((subpath, new_mode, new_sha))
     for name, subchanges in nested_changes.items():
@@ -3459,6 +3463,8 @@ def commit_tree_changes(
             del tree_obj[name]
         else:
             tree_obj[name] = (stat.S_IFDIR, subtree.id)
+    for name, new_mode, new_sha in new_entries:
+        tree_obj[name] = (new_mode, new_sha)
     object_store.add_object(tree_obj)
     return tree_obj.id
 
